@@ -135,9 +135,29 @@ pub fn gen_case(seed: u64, idx: u64) -> Case {
             let d = 1 + rng.below(cap);
             Case { family: "nesting", text: ladder_text(l, d) }
         }
-        9 if rng.chance(1, 2) => Case { family: "type-declarations", text: type_decl_program(&mut rng) },
+        9 if rng.chance(1, 3) => Case { family: "type-declarations", text: type_decl_program(&mut rng) },
+        9 if rng.chance(1, 2) => Case { family: "generic-calls", text: generic_calls_program(&mut rng) },
         _ => Case { family: "corpus", text: src.clone() },
     }
+}
+
+/// generic functions applied to each other with the type variable in every position of parameter and argument (well typed and
+/// not): unification and substitution must terminate with a type or a diagnostic
+fn generic_calls_program(rng: &mut Rng) -> String {
+    let shapes = ["'t", "['t, 'int]", "['t, 't]", "['int, 't]", "A['t]", "['t, ['t, 'bin]]", "(x: 't)", "'t | []", "#'t -> 't", "['t, 'u]"];
+    let args = ["$", "[$, 1]", "[$, $]", "[1, $]", "A[$]", "[$, [$, 0x00]]", "[x: $]", "[[$, $], $]", "&id", "[$, $0]"];
+    let mut lines = vec!["id = #<'t>'t { $ }".to_string()];
+    let n = 1 + rng.below(3);
+    for k in 0..n {
+        let p = *rng.pick(&shapes);
+        let vars = if p.contains("'u") { "<'t, 'u>" } else { "<'t>" };
+        let body = match rng.below(4) { 0 => "$".to_string(), 1 => "$0".to_string(), 2 => format!("{} id", rng.pick(&args)), _ => if k > 0 { format!("{} g{}", rng.pick(&args), rng.below(k)) } else { "$".to_string() } };
+        lines.push(format!("g{} = #{}{} {{ {} }}", k, vars, p, body));
+    }
+    let caller_p = *rng.pick(&shapes);
+    lines.push(format!("h = #<'t>{} {{ {} g{} }}", caller_p.replace("'u", "'t"), rng.pick(&args), rng.below(n)));
+    lines.push(match rng.below(3) { 0 => "5 h".to_string(), 1 => "[5, 0x01] h".to_string(), _ => "1".to_string() });
+    lines.join(if rng.chance(1, 2) { ",\n" } else { ", " })
 }
 
 /// well-formed and nearly well-formed type declarations: aliases (plain, parameterised, recursive, nameless default), tuple,
@@ -347,4 +367,4 @@ pub fn check(rep: &Report) {
 
 pub const RULE: &str = "inputs derived from the corpus extracted from the current /repo (test-suite sources, spec/README blocks, std, format/parser/lsp test literals): every-position prefixes, single-token deletion / duplication / substitution (substitutes from the language's token set), character-level insert/replace incl. NUL, multi-byte UTF-8, U+2028 and CRLF, numeric extremes in every numeric position (accessor indices, ^N, @N, decimals, fractions, hex), splices of two programs, token soup, nesting ladders of 36 bracketing/repetition constructs in value, pattern and type position up to depth 100; parse then (if accepted) compile, under catch_unwind on an 8 MiB-stack thread in the release profile inside child processes (aborts/stack overflows attributed to the input). Oracle: no panic/abort, parse error position inside the input and consistent (offset <= len, line matches offset, column >= 1), ladders judged by the hang discipline (x4 growth per 4 levels twice and >1 h extrapolated). distinct_nontrivial = distinct non-corpus inputs judged";
 pub const ASSUME: &[&str] = &["slow or stalled non-ladder cases are inconclusive (no structural parameter to scale)", "compile uses the inline (stdlib-only) resolver"];
-pub const SITUATIONS: &[&str] = &["family=prefix", "family=token-delete", "family=token-duplicate", "family=token-substitute", "family=char-insert", "family=numeric-extreme", "family=nesting", "family=splice", "family=token-soup", "family=type-declarations", "parse=ok", "parse=err", "compile=ok", "compile=err", "ladders_finished_to_depth_100"];
+pub const SITUATIONS: &[&str] = &["family=prefix", "family=token-delete", "family=token-duplicate", "family=token-substitute", "family=char-insert", "family=numeric-extreme", "family=nesting", "family=splice", "family=token-soup", "family=type-declarations", "family=generic-calls", "parse=ok", "parse=err", "compile=ok", "compile=err", "ladders_finished_to_depth_100"];
